@@ -324,7 +324,7 @@ def _opname(op):
 ENABLED = (ops.CREATE + ops.SETTERS * 3 + ops.LINKS + ops.DATA + ops.DELETE +
            ["force_ts"] * 4 + ["reopen"] * 3 + ["auto_ts"] * 3 + ["overwrite"] * 3)
 
-TIMES = st.one_of(st.sampled_from([0, 1, 59, 86399, 86400, 951782400, 951868799, 1078099200, 1582934400, 2147483647,
+TIMES = st.one_of(st.sampled_from([0, 0, 0, 1, 59, 86399, 86400, 951782400, 951868799, 1078099200, 1582934400, 2147483647,
                                    2147483648, 4102444800, 4102444799, 1600000000]),
                   st.integers(0, 4102444800))
 
@@ -352,6 +352,14 @@ def case_strategy(draw, max_ops, sweep=False):
         prog = draw(ops.program(ENABLED, min_size=max(4, max_ops // 2), max_size=max_ops, name_pool=["a", "b", "sig"]))
         rich = draw(st.booleans())
     prog = [dict(o, time=draw(TIMES)) if o["op"] == "force_ts" else o for o in prog]
+    # a forced time (possibly ahead of the clock) followed by a descriptive change of the same entity: the update
+    # time becomes the CURRENT time, wherever it stood
+    out = []
+    for o in prog:
+        out.append(o)
+        if o["op"] == "force_ts" and o.get("k") in MUST["definition"] and draw(st.booleans()):
+            out.append({"op": "set", "k": o["k"], "t": o["t"], "attr": "definition", "val": "after-force", "how": "name"})
+    prog = out
     dts = draw(st.lists(st.sampled_from([0, 1, 1, 2, 3600, 1000000]), min_size=1, max_size=7))
     return {"auto": draw(st.booleans()) if not sweep else draw(st.sampled_from([True, True, False])),
             "rich": rich, "t0": draw(st.integers(0, 10 ** 6)), "prog": _with_ticks(prog, dts)}
